@@ -143,14 +143,16 @@ Definition decode_variable (v : nat) : option (nat * nat) :=
 Definition post_preamble_size : nat :=
   Nat.max (fl_alignment_preamble fb) (fold_left Nat.max (fl_preambles fb) 0).
 
-(** [map_block_trial_ranges]: the list of (start, end) the [while] loop visits.
+(** [map_block_trial_ranges]: the list of (start, min(end, num_trials)) the
+    [while] loop visits (the clamp is /repo commit 2f184ec, "fix: repetition
+    windows ran past the last trial").
     Negative starts cannot be represented: under POST_PREAMBLE the start is
     [preamble_size() - within_block.preamble_size], [None] if that is negative. *)
 Fixpoint ranges_loop (fuel start e step stop : nat) : list (nat * nat) :=
   match fuel with
   | O => []
   | S fuel' =>
-    if start <? stop then (start, e) :: ranges_loop fuel' (start + step) (e + step) step stop
+    if start <? stop then (start, Nat.min e trials) :: ranges_loop fuel' (start + step) (e + step) step stop
     else []
   end.
 
